@@ -107,3 +107,16 @@ Theorem C07_1D_run_bounds :
   forall ops s, Inv P lo hi s -> List.Forall (shelf_ok lo hi) ops -> Inv P lo hi (fold_left (apply1 P) ops s).
 Proof. intros. apply (run_bounds_from_constants P lo hi cmin lmin lmax); assumption. Qed.
 Print Assumptions C07_1D_run_bounds.
+
+(* homogeneous (0D) model: a cooling step and a solidification step move the temperature towards the shelf temperature
+   and never beyond it (so it stays between the initial temperature and the coldest shelf temperature applied so far) *)
+Theorem C07_0D_steps_stay_between_product_and_shelf :
+  forall (P : @p1d R) area Tsh T w,
+  (0 < q_cp0 P * q_mass P -> 0 <= q_dt P * (area * q_K P) <= q_cp0 P * q_mass P ->
+     Rmin T Tsh <= cool0 Rops P area Tsh T <= Rmax T Tsh)
+  /\ (let cp := q_cps P * (q_ms P / q_mass P) + q_cpi P * w + q_cpw P * (1 - q_ms P / q_mass P - w) in
+      0 < cp * q_rho P * q_V P -> 0 <= q_Dh P * q_kf P * q_ms P / q_Ms P -> T <> q_Tm P ->
+      0 <= q_dt P * (area * q_K P) <= cp * q_rho P * q_V P ->
+      Rmin T Tsh <= fst (solid0 Rops P area Tsh T w) <= Rmax T Tsh).
+Proof. intros. split; [apply cool0_between|apply solid0_between]. Qed.
+Print Assumptions C07_0D_steps_stay_between_product_and_shelf.
